@@ -85,9 +85,12 @@ class Mod:
 
 
 class Shape:
-    def __init__(self, sid, files, mods):
+    def __init__(self, sid, files, mods, ambient=None):
         self.id = sid
         self.files = files  # ordered {rel: text}; first = root
+        # files that are part of every tree of this shape but never a fault position and never expected to be
+        # formatted (an `ignore`d module file and the configuration that ignores it)
+        self.ambient = ambient or {}
         self.mods = {m.rel: m for m in mods}
         self.root = next(iter(files))
 
@@ -182,6 +185,26 @@ def make_shapes():
                 Mod("a/imp.rs", "a.rs", cfg_decl, "imp", None, content_only=True),
                 Mod("imp_alt.rs", "a.rs", cfg_decl, "imp", None, content_only=True),
             ],
+        )
+    )
+    # History inside one parse session: a module file that is on the `ignore` list and has a (recoverable)
+    # syntax error of its own is visited before / between the files that can carry the fault. Diagnostics of
+    # ignored files are silenced and reset; that must not leak to the files that are not ignored.
+    ignored = {"rustfmt.toml": 'ignore = ["a_gen.rs"]\n', "a_gen.rs": "pub fn gen() { let x = 1 let y = 2; }\n"}
+    s.append(
+        Shape(
+            "S11-ignored-broken-module-first",
+            {"lib.rs": "mod a_gen;\nmod b;\nmod c;\n" + body("root"), "b.rs": body("b"), "c.rs": body("c")},
+            [Mod("b.rs", "lib.rs", "mod b;", "b", "b/mod.rs"), Mod("c.rs", "lib.rs", "mod c;", "c", "c/mod.rs")],
+            ambient=ignored,
+        )
+    )
+    s.append(
+        Shape(
+            "S12-ignored-broken-module-between",
+            {"lib.rs": "mod b;\nmod a_gen;\nmod c;\n" + body("root"), "b.rs": body("b"), "c.rs": body("c")},
+            [Mod("b.rs", "lib.rs", "mod b;", "b", "b/mod.rs"), Mod("c.rs", "lib.rs", "mod c;", "c", "c/mod.rs")],
+            ambient=ignored,
         )
     )
     return s
@@ -306,6 +329,8 @@ def build_faulty_tree(shape, faults):
             text[m.parent] = text[m.parent].replace(m.decl, new, 1)
             needles += ["nope", m.name]
     for rel, t in text.items():
+        entries[rel] = ["file", t.encode()]
+    for rel, t in shape.ambient.items():
         entries[rel] = ["file", t.encode()]
     # 2. content faults
     allc = dict(CONTENT_FAULTS)
@@ -655,9 +680,9 @@ def machinery(msg):
     sys.exit(2)
 
 
-def reference(files, root_rel, tag):
+def reference(files, root_rel, tag, ambient=None):
     base = SCRATCH.fresh("ref-" + tag)
-    materialise(base, {k: ["file", v.encode()] for k, v in files.items()})
+    materialise(base, {k: ["file", v.encode()] for k, v in list(files.items()) + list((ambient or {}).items())})
     argv = [RUSTFMT, "--color", "never", "--emit", "stdout", os.path.join(base, root_rel)]
     rc, out, err = common.run(argv, cwd=base, env=base_env())
     parts = split_stdout(out, [os.path.join(base, r) for r in files])
@@ -714,7 +739,7 @@ def main():
         SCRATCH = sc
         REF["H"] = reference(HEALTHY, "lib.rs", "H")
         for s in SHAPES:
-            REF[s.id] = reference(s.files, s.root, s.id)
+            REF[s.id] = reference(s.files, s.root, s.id, s.ambient)
         singles, pairs = enumerate_items(run.thorough)
         budget = float(os.environ.get("C05_BUDGET_S", "1080" if run.thorough else "55"))
         order = singles + pairs
